@@ -272,7 +272,11 @@ impl Searcher {
 
                     best_mv = line.first().copied();
 
-                    assert!(!line.is_empty());
+                    // A root without legal moves (checkmate or stalemate) has no line
+                    // to report and nothing to deepen
+                    if line.is_empty() {
+                        break;
+                    }
 
                     // Make sure that the line we're returning is actually valid
                     debug_assert!({
